@@ -230,7 +230,20 @@ class Check:
         self.obs.append(Ob(label, status, detail, finding, target))
 
     def absorb(self, ex, target_label, finals=None, expect_paths=True, known_panics=()):
-        """turn an engine run's panic-site findings + bookkeeping into obligations"""
+        """note the target label for an engine run; findings/sites are converted at finish (sweep), path bookkeeping now"""
+        ex.label = target_label
+        for f in ex.findings:
+            if not hasattr(f, 'target'):
+                f.target = target_label
+        for site, info in ex.site_samples.items():
+            info.setdefault('target', target_label)
+        self._paths(ex, target_label, finals, expect_paths)
+
+    def sweep(self):
+        for ex in self.engines:
+            self._absorb_now(ex, getattr(ex, 'label', 'engine'))
+
+    def _absorb_now(self, ex, target_label):
         seen = set()
         for f in ex.findings:
             if getattr(f, '_absorbed', False):
@@ -240,15 +253,17 @@ class Check:
             if key in seen:
                 continue
             seen.add(key)
-            self.add(f.site, 'violated', '%s %s' % (f.kind, f.detail), f, target_label)
+            self.add(f.site, 'violated', '%s %s' % (f.kind, f.detail), f, getattr(f, 'target', target_label))
         for site, info in ex.site_samples.items():
             if info.get('_absorbed'):
                 continue
             info['_absorbed'] = True
             if info['status'] in ('discharged', 'unreachable-failure'):
-                self.add(site, 'discharged', info['kind'], None, target_label)
+                self.add(site, 'discharged', info['kind'], None, info.get('target', target_label))
             elif info['status'] == 'inconclusive':
-                self.add(site, 'inconclusive', info['kind'], None, target_label)
+                self.add(site, 'inconclusive', info['kind'], None, info.get('target', target_label))
+
+    def _paths(self, ex, target_label, finals, expect_paths):
         if finals is not None:
             cut = [s for s in finals if s.status == 'cut']
             seen_cut = set()
@@ -266,6 +281,9 @@ class Check:
 
     # ------------------------------------------------------------------ finish
     def finish(self, known, replayer=None):
+        self.sweep()
+        if hasattr(self, 'post_filter'):
+            self.obs = [o for o in self.obs if self.post_filter(o)]
         violations = []
         known_lines = []
         seen_known = set()
